@@ -9,6 +9,7 @@ function is runnable standalone:  /verif/.venv/bin/python -m contracts.c07_bound
 
 A failed entry has id  C07/<templater>/valid[<conjunct>]  (conjunct of `valid`: raw-tiles, templated-tiles, templated-tiles:no-slices,
 source-slices-in-range, literal-text-equal), the smallest witness template of that conjunct and the number of failing variants.
+For jinja the id carries the suffix [template-without-loop] when the template has no `for` tag.
 """
 import itertools
 import random
@@ -57,9 +58,18 @@ def _outcome(templater, cfg, template):
     return out
 
 
+_FOR = re.compile(r"\{%-?\s*for\b")
+
+
+def has_loop(template):
+    return bool(_FOR.search(template))
+
+
 def shrink(templater, cfg, template, want, budget=400):
-    """greedy chunk removal (tags / fields / single characters) that keeps `want` in the outcome: a smaller witness of the same class"""
+    """greedy chunk removal (tags / fields / single characters) that keeps `want` in the outcome: a smaller witness of the same class
+    (a witness without a `for` loop stays loop-free by construction; a witness with a loop must keep one)"""
     parts = [p for p in _CHUNK.findall(template) if p]
+    loop = has_loop(template)
     calls, changed = 0, True
     while changed and calls < budget:
         changed = False
@@ -68,7 +78,7 @@ def shrink(templater, cfg, template, want, budget=400):
             while i + n <= len(parts) and calls < budget:
                 cand = parts[:i] + parts[i + n:]
                 calls += 1
-                if want in _outcome(templater, cfg, "".join(cand)):
+                if has_loop("".join(cand)) == loop and want in _outcome(templater, cfg, "".join(cand)):
                     parts, changed = cand, True
                 else:
                     i += 1
@@ -125,6 +135,10 @@ class _Run:
             for cname, holds in conjuncts(tf):
                 if not holds:
                     fid = f"C07/{self.name}/valid[{cname}]"
+                    if self.name == "jinja" and not has_loop(template):
+                        # partition by a precondition: templates without a `for` loop (all known defects of the jinja source maps
+                        # need a loop; a failure here is a different defect and must not hide behind them)
+                        fid += "[template-without-loop]"
                     self.count[fid] = self.count.get(fid, 0) + 1
                     cur = self.best.get(fid)
                     if cur is None or _size(template) < _size(cur[0]):
@@ -234,14 +248,15 @@ def python_source_maps(tier, seed):
 
 
 # ===================================================================================================== jinja
-JINJA_CONTEXT = {"x": "col_a", "y": 7, "flag_t": True, "flag_f": False, "xs0": [], "xs1": ["p"], "xs2": ["p", "q"], "tbl": "my_tbl"}
+JINJA_CONTEXT = {"x": "col_a", "y": 7, "flag_t": True, "flag_f": False, "xs0": [], "xs1": ["p"], "xs2": ["p", "q"], "tbl": "my_tbl",
+                 "this_is_a_rather_long_flag_name_t": True, "this_is_a_rather_long_flag_name_f": False}
 _J_LITERALS = ["select 1", "a,\n  b", "\n", " ", "from t\n", "x = 1 ", "", "-- c\n", "  \n  ", "col_a"]
 _J_EXPRS = ["{{ x }}", "{{ x | upper }}", "{{ undef }}", "{{ y + 1 }}", "{{ xs2 | join(', ') }}", "{{- x -}}", "{{ x }}{{ tbl }}", "{{ i }}", "{{ undef.attr }}", "{{ '' }}"]
 _J_MISC = ["{# comment #}", "{#- comment -#}", "{% set z = 2 %}", "{% set z = x %}{{ z }}", "{% set blk %}inner {{ x }}{% endset %}{{ blk }}",
            "{% raw %}{{ not_rendered }} {% if %}{% endraw %}", "{%- set z = 1 -%}", "{% if flag_t %}{% endif %}"]
 _J_MACRO_DEFS = ["{% macro m(a) %}<{{ a }}>{% endmacro %}", "{% macro m(a) -%}\n  f({{ a }})\n{%- endmacro %}"]
 _J_MACRO_CALLS = ["{{ m(1) }}", "{{ m(x) }}", "{{ m(x) }} {{ m(y) }}", "{% call m(1) %}{% endcall %}"]
-_J_CONDS = ["flag_t", "flag_f", "undef", "y > 3", "not flag_t"]
+_J_CONDS = ["flag_t", "flag_f", "undef", "y > 3", "not flag_t", "this_is_a_rather_long_flag_name_t", "not this_is_a_rather_long_flag_name_f and y > 3"]
 _J_ITERS = ["xs0", "xs1", "xs2", "range(2)", "undef_list"]
 
 
